@@ -789,7 +789,7 @@ def sessions(txs):
     """the 6 interactive sessions: (id, argv)"""
     S = [
         ("plain-z", ["-z", "[OP_ADD OP_8 OP_EQUAL]", "7", "1"]),
-        ("ifelse", ["[OP_1 OP_IF OP_2 OP_ELSE OP_3 OP_ENDIF OP_TOALTSTACK]"]),
+        ("ifelse", ["--modify-flags=-CONST_SCRIPTCODE", "[OP_1 OP_IF OP_2 OP_ELSE OP_3 OP_ENDIF OP_TOALTSTACK]", "0x01", "0x02"]),
         ("p2pkh", ["--tx=" + txs["p2pkh"][0], "--txin=" + txs["p2pkh"][1]]),
         ("p2sh-multisig", ["--tx=" + txs["p2sh-multisig-2-of-2"][0], "--txin=" + txs["p2sh-multisig-2-of-2"][1]]),
         ("p2tr", ["--tx=" + txs["p2tr"][0], "--txin=" + txs["p2tr"][1]]),
